@@ -128,13 +128,13 @@ def r3_siblings(ctx, f, rep):
                     cfg = tp[0]['args'][-1]
                     good = cfg == ('load', q.self_field('0'), 0)
                     wr = [c for c in calls if c['decl'] in ('bytes::BufMut::writer', 'bytes::Buf::reader')]
-                    good = good and len(wr) == 1 and wr[0]['args'][0] == ('param', 0, 3 if m.startswith('encode') else 2)
+                    good = good and len(wr) == 1 and q.is_param(wr[0]['args'][0], 3 if m.startswith('encode') else 2)
                     if m.startswith('encode'):
-                        good = good and tp[0]['args'][0] == ('param', 0, 2)
+                        good = good and q.is_param(tp[0]['args'][0], 2)
                 if good and pre == PC and m.startswith('encode'):
                     fl = tp[0]['args'][1]
-                    good = tp[0]['args'][0] in (('param', 0, 2), ('ref', ('deref', ('param', 0, 2)), False)) and \
-                        fl[0] == 'agg' and fl[2].endswith('WrappedBuf') and fl[5][0] == ('param', 0, 3)
+                    good = q.is_param(tp[0]['args'][0], 2) and \
+                        fl[0] == 'agg' and fl[2].endswith('WrappedBuf') and q.is_param(fl[5][0], 3)
                 if not q.path_is_error_propagation(p) or tp:
                     rep.check(good, 'C20-R3', b.nname, 'uses %s on the buffer/value it was given' % want.split('::')[-1],
                               construct='third-party-entry')
